@@ -9,3 +9,29 @@ package flags
 //@   site WithDry#0 requires arg0 == (Dry || Status)                                             [C12]
 // "yes" is assumed for prompts - the task's own and the trust prompt of a remote Taskfile - only when --yes was given
 //@   site WithAssumeYes#0 requires arg0 == AssumeYes                                             [C20,C13]
+// every other setting reaches the Executor as the flag of the same name says it (no setting is dropped, negated or
+// taken from a neighbouring flag on the way)
+//@   site WithEntrypoint#0 requires arg0 == Entrypoint                                    [C08,C09]
+//@   site WithForce#0 requires arg0 == Force                                              [C04,C05]
+//@   site WithForceAll#0 requires arg0 == ForceAll                                        [C04,C05]
+//@   site WithInsecure#0 requires arg0 == Insecure                                        [C20]
+//@   site WithDownload#0 requires arg0 == Download                                        [C20]
+//@   site WithOffline#0 requires arg0 == Offline                                          [C20]
+//@   site WithTimeout#0 requires arg0 == Timeout                                          [C20]
+//@   site WithCacheExpiryDuration#0 requires arg0 == CacheExpiryDuration                  [C20]
+//@   site WithWatch#0 requires arg0 == Watch                                              [C12,C15]
+//@   site WithVerbose#0 requires arg0 == Verbose                                          [C17]
+//@   site WithSilent#0 requires arg0 == Silent                                            [C02,C17]
+//@   site WithSummary#0 requires arg0 == Summary                                          [C12]
+//@   site WithParallel#0 requires arg0 == Parallel                                        [C01,C02]
+//@   site WithColor#0 requires arg0 == Color                                              [C17]
+//@   site WithConcurrency#0 requires arg0 == Concurrency                                  [C07]
+//@   site WithInterval#0 requires arg0 == Interval                                        [C05]
+
+// ---- C10: where the experiment switches are looked up (.taskrc.yml, .env: ENV_PRECEDENCE decides whether the Taskfile
+// env beats the process environment). The directory is --dir when given, ELSE the directory of --taskfile: the early
+// parse of these two flags starts from EMPTY defaults, so that "not given" can be told from any directory
+//@ func init#1
+//@   site (*FlagSet).StringVarP#1 requires arg2 == "dir" && arg4 == ""                            [C10]
+//@   site (*FlagSet).StringVarP#2 requires arg2 == "taskfile" && arg4 == ""                       [C10]
+
